@@ -39,14 +39,18 @@ pub fn opt_kv(o: Option<(u64, u64)>) -> Ints {
 use crate::types::{TKey, TVal};
 use caches::PutResult;
 pub fn put_res(r: PutResult<TKey, TVal>) -> Ints {
-    match r {
+    let out = match &r {
         PutResult::Put => vec![0],
         PutResult::Update(v) => vec![1, v.v as i128],
         PutResult::Evicted { key, value } => vec![2, key.id as i128, value.v as i128],
         PutResult::EvictedAndUpdate { evicted, update } => {
             vec![3, evicted.0.id as i128, evicted.1.v as i128, update.v as i128]
         }
-    }
+    };
+    // dropped while `out` is a live local: if a Drop panics (fault slices) unwinding frees `out`; a value that
+    // is already in the return slot would be lost
+    drop(r);
+    out
 }
 pub fn opt_put_res(r: Option<PutResult<TKey, TVal>>) -> Ints {
     match r {
